@@ -99,7 +99,12 @@ func monFlush(ctx *core.Ctx) {
 
 // reducersAllFired adds a floor: every reducer fired at least once.
 func reducersAllFired(res *core.Result, reasons *[]string) {
+	fired := 0
 	for _, n := range mon.ReducerNames {
-		floor(res.Counters["reducer_"+n] > 0, reasons, "reducer %s never fired", n)
+		if res.Counters["reducer_"+n] > 0 {
+			fired++
+		}
 	}
+	// all 12 fire on the pinned tree; the floor leaves room for a refactoring that merges reducers
+	floor(fired >= 9, reasons, "only %d distinct reducers fired", fired)
 }
